@@ -67,7 +67,7 @@ PROPS = {
         "trusted_base": COMMON_TB,
         "assumptions": COMMON_ASSUME + [
             "the flush threshold is Vec::with_capacity(cap).capacity(), read back by the harness and sent to the model",
-            "RangeMocBuilder (from_maxdepth_ranges / from_cells) is modelled and tied by the correspondence; its order/capacity-independence theorem is not proved yet (partial)"],
+            "RangeMocBuilder theorems assume non-empty pushed ranges (start < end); an empty or reversed range is outside the statement"],
         "rule": "per (quantity,width): random cell multisets (incl. first/last cell of the depth) x 5 arrival orders (sorted, reversed, shuffled, duplicated+shuffled, adjacent duplicates) "
                 "x 8 buffer capacities (1,2,3,5,8,len,len+1,default) x {push, push_v2}; append to an existing MOC; unaligned overlapping/touching/nested max-depth ranges and mixed-depth "
                 "cells x orders x capacities; n-ary or/and/xor (owned and iterator variants) for every list length 0..18 against the model's kway AND against the left fold. "
@@ -78,7 +78,7 @@ PROPS = {
         "trusted_base": COMMON_TB,
         "assumptions": COMMON_ASSUME + [
             "leading_zeros / trailing_zeros are modelled by Nat.log2 and a recursive trailing-zero count",
-            "whole-list statements about the cell view (covers the set, normal form), cell ranges, flat cells and the NUNIQ range iterators are tied by the correspondence only (partial)"],
+            "the cell view is proved at list level (cells_roundtrip, cells_cover, cells_normal_form, cells_injective); the cell-RANGE view, flat cells and the NUNIQ range iterators are tied by the correspondence and judged against the identity round trip (partial)"],
         "rule": "per (quantity,width): random dense/sparse cell sets over the whole-domain universe at Hpx depth 1 (48 cells: mixed depth-0/1 cells, full base cells) and "
                 "Time/Frequency depth 3 (16 cells), full and empty MOCs, boundary-biased random MOCs at all depths: cell view, cell-range view, flat cells, back to ranges, "
                 "round trips (cells, cell ranges, width through u64, NUNIQ ranges) against the identity; numbering schemes exhaustively for depths with <= 200 cells and "
@@ -110,7 +110,7 @@ PROPS = {
         "trusted_base": COMMON_TB + ["word-level model of the FITS v2 ST rows; the bit test `start & end & MSB == MSB` is modelled as `both >= 2^(w-1)` (equal on w-bit words)"],
         "assumptions": COMMON_ASSUME + [
             "theorem hypothesis ElemOk: every element has a non-empty time part and a non-empty space part and no space row has both bounds >= 2^(w-1) (true of every HEALPix index); the necessity of the non-empty space part is a proved counterexample",
-            "ASCII ('t.. s..') and JSON ST syntaxes, header cards and depths are exercised by direct round trips on real bytes (test level), not modelled; u64 indices only"],
+            "the ST ASCII ('t.. s..') and JSON syntaxes are modelled at document level on top of the 1-D codec theorems (st_ascii_roundtrip, st_json_roundtrip: per-dimension token lists); lexing of the text, header cards and the FITS keywords are exercised on real bytes and tied to the model reader (st_ascii_dec); u64 indices only"],
         "rule": "three passes (time depth 2; depth 61 from 0; depth 61 just below the top of the time domain: indices above 2^53) of 400 (15000 thorough) ST-MOCs: empty (1 in 25), 1..many elements with multi-range time parts, one in five with a time range reaching the top of the time domain (2^62): FITS v2 written by the "
                 "real writer — its (start,end) rows = model rows (st_fits_enc), real reader on those rows = model reader (st_fits_dec), decoded value = original with both depths, re-serialisation gives the "
                 "same bytes; ASCII (fold 80) and JSON (fold 40) written and read back = original with both depths. distinct_nontrivial = distinct op lines with a non-empty MOC.",
@@ -164,11 +164,12 @@ PROPS = {
             "outputs are compared in the common 64-bit index space (a w-bit index i stands for i << (64-w)), which is the identification the theorem cli_op2_width_independent uses"],
         "assumptions": COMMON_ASSUME + [
             "the hints of the two file streams inside the tool are reproduced in-process from the same files (source kind fits-stream); by cli_op2_sem the result does not depend on them as long as they are consistent",
-            "`moc from pos`: the HEALPix hash of a position is computed by cdshealpix in the harness (oracle for the hash only); geometry sub-commands (cone, polygon, ...), filter, view, hprint, info and the ST variants of op are not driven",
+            "`moc from pos`: the HEALPix hash of a position is computed by cdshealpix in the harness (oracle for the hash only); geometry sub-commands (cone, polygon, ...), filter, view, hprint, info are not driven",
+            "space-time variants of op (inter / union / minus on two ST-MOC files, tfold, sfold with a u16/u32/u64 left operand): the decoded output is compared as a point set on a grid (every time-cell start, an interior instant of every cell, one position per space cell) with the point-wise semantics of the ST theorems (C08/C10: st_sem, tfold_sem, sfold_sem); ST files are u64 (the tool refuses other widths)",
             "clap's parsing of file names that resemble a sub-command (e.g. a relative `a.fits`) is outside the model; the harness passes absolute paths"],
         "rule": "for each quantity all 9 (left width, right width) pairs x 2 (24 thorough) random operand pairs (empty, full, shallow, deepest depth) x {inter, union, symdiff, minus} with a random output format "
                 "(fits, ascii, json); per (quantity, width) 2 (24) MOCs through complement, degrade to a random depth and all 9 convert pairs {fits, ascii, json} x {fits, ascii, json} (folded / offset text inputs); "
-                "NUNIQ (v1) left operand against a u32 right operand; `from timestamp` / `from timerange` (microseconds, depths 0..61, instants at both ends of the time domain, duplicates, touching ranges) "
+                "a deterministic sweep text -> FITS at every depth around MAX_DEPTH of u16/u32 of each quantity (automatic narrowing); space-time ops in three passes (coarse time cells, 1-microsecond cells at 0 and at the top of the time domain) on random and RELATED ST operands; NUNIQ (v1) left operand against a u32 right operand; `from timestamp` / `from timerange` (microseconds, depths 0..61, instants at both ends of the time domain, duplicates, touching ranges) "
                 "and `from pos`; invalid inputs (missing file, S-MOC vs T-MOC, stream inputs, truncated / corrupted / random / text-as-FITS files, out-of-domain / overlapping / reversed / garbage ASCII, garbage "
                 "lines and out-of-range depths for `from`, out-of-range degrade depth): non-zero exit status with a message and never exit 101. distinct_nontrivial = distinct op lines with a non-empty operand.",
         "explanation": "theorems: stream handed to the writer = set operation on the two inputs for any widths and consistent hints, width independence in the 64-bit index space, complement, degrade, re-exported codec and builder theorems; correspondence on the real binary",
